@@ -71,6 +71,49 @@ func forwarderRunParts(w *World) (run, merging, posting *ssa.Function) {
 	return
 }
 
+// fwdEvent names what an instruction of the forwarder's Run goroutines does to the two semaphores and the
+// flush coordinator, whether it is written through the one-line wrappers (acquireSem, releaseSem,
+// acquireMergingSem, releaseMergingSem, notifyFlush) or in place: a receive from / send on the semaphore
+// field, and the test `hfh.flushCoordinator != nil` that guards the NotifyFlush call (the notification point:
+// exactly one NotifyFlush follows on its non-nil side, checked separately).
+func fwdEvent(in ssa.Instruction) string {
+	if cl, ok := in.(ssa.CallInstruction); ok {
+		if cal := staticCallee(cl); cal != nil {
+			switch cal.Name() {
+			case "acquireSem", "releaseSem", "acquireMergingSem", "releaseMergingSem", "notifyFlush", "postMetrics":
+				return cal.Name()
+			}
+		}
+	}
+	semField := func(v ssa.Value) string {
+		p := pathOf(v)
+		switch {
+		case strings.HasSuffix(p, ".metricsMergingSem"):
+			return "MergingSem"
+		case strings.HasSuffix(p, ".metricsSem"):
+			return "Sem"
+		}
+		return ""
+	}
+	switch x := in.(type) {
+	case *ssa.Send:
+		if f := semField(x.Chan); f != "" {
+			return "release" + f
+		}
+	case *ssa.UnOp:
+		if x.Op == token.ARROW {
+			if f := semField(x.X); f != "" {
+				return "acquire" + f
+			}
+		}
+	case *ssa.If:
+		if b, ok := x.Cond.(*ssa.BinOp); ok && (b.Op == token.NEQ || b.Op == token.EQL) && isNilConst(b.Y) && strings.HasSuffix(pathOf(b.X), ".flushCoordinator") {
+			return "notifyFlush"
+		}
+	}
+	return ""
+}
+
 // perSplitRule: in the merging goroutine every element of the SplitByTags result causes exactly
 // one flush notification: directly (empty map) or through exactly one posting goroutine that
 // receives this iteration's map and header tags; nothing notifies outside the loop.
@@ -120,11 +163,7 @@ func perSplitRule(c *Ctx, r *Rule) {
 	loopHead := next.Block()
 	body := loopHead.Succs[0]
 	isNotify := func(in ssa.Instruction) bool {
-		cl, ok := in.(ssa.CallInstruction)
-		if !ok {
-			return false
-		}
-		if cal := staticCallee(cl); cal != nil && cal.Name() == "notifyFlush" {
+		if fwdEvent(in) == "notifyFlush" {
 			return true
 		}
 		if g, ok := in.(*ssa.Go); ok {
@@ -147,8 +186,8 @@ func perSplitRule(c *Ctx, r *Rule) {
 	})
 	// direct notification only for the empty map
 	eachInstr(merging, func(in ssa.Instruction) {
-		if cl, ok := in.(ssa.CallInstruction); ok {
-			if cal := staticCallee(cl); cal != nil && cal.Name() == "notifyFlush" {
+		if fwdEvent(in) == "notifyFlush" {
+			{
 				okEmpty := false
 				for _, cd := range condsFor(in.Block()) {
 					cd = normCond(cd)
@@ -189,15 +228,10 @@ func perSplitRule(c *Ctx, r *Rule) {
 	// posting goroutine: postMetrics -> notifyFlush -> releaseSem, each exactly once
 	names := []string{"postMetrics", "notifyFlush", "releaseSem"}
 	res := runAutomaton(posting, 0, func(in ssa.Instruction) int {
-		cl, ok := in.(ssa.CallInstruction)
-		if !ok {
-			return -1
-		}
-		if cal := staticCallee(cl); cal != nil {
-			for i, n := range names {
-				if cal.Name() == n {
-					return i
-				}
+		ev := fwdEvent(in)
+		for i, n := range names {
+			if ev == n {
+				return i
 			}
 		}
 		return -1
@@ -217,24 +251,43 @@ func perSplitRule(c *Ctx, r *Rule) {
 	r.Check("posting:post-then-notify-then-release", m == 1<<3, posting.Pos(), fmt.Sprintf("states at exit %b (must be: all three done)", m))
 	// the posted map and tags are the goroutine's own parameters
 	r.Check("posting:posts-own-map", len(callsTo(posting, "(*pkg/statsd.HttpForwarderHandlerV2).postMetrics")) == 1, posting.Pos(), "one postMetrics call per posting goroutine (its map and tags are checked above)")
-	// notifyFlush forwards to the coordinator iff present
-	nf := w.Func("pkg/statsd", "(*HttpForwarderHandlerV2).notifyFlush")
-	if nf == nil {
-		r.Unresolved("notifyFlush")
-		return
+	// the notification forwards to the coordinator iff one is set: in the wrapper, or where it is written in place
+	hosts := []*ssa.Function{}
+	if nf := w.Func("pkg/statsd", "(*HttpForwarderHandlerV2).notifyFlush"); nf != nil {
+		hosts = append(hosts, nf)
+	} else {
+		hosts = append(hosts, merging, posting)
 	}
 	n := 0
-	for _, cl := range callsIn(nf) {
-		if cl.Common().IsInvoke() && cl.Common().Method.Name() == "NotifyFlush" {
-			n++
-			ok := knownNonNil(factsAt(cl.Block()), func(v ssa.Value) bool { return strings.HasSuffix(pathOf(v), ".flushCoordinator") })
-			r.Check("notifyFlush:guarded", ok && strings.HasSuffix(pathOf(cl.Common().Value), ".flushCoordinator"), cl.Pos(), "NotifyFlush is sent to hfh.flushCoordinator when it is set")
+	for _, nf := range hosts {
+		for _, cl := range callsIn(nf) {
+			if cl.Common().IsInvoke() && cl.Common().Method.Name() == "NotifyFlush" {
+				n++
+				ok := knownNonNil(factsAt(cl.Block()), func(v ssa.Value) bool { return strings.HasSuffix(pathOf(v), ".flushCoordinator") })
+				r.Check("notifyFlush:guarded", ok && strings.HasSuffix(pathOf(cl.Common().Value), ".flushCoordinator"), cl.Pos(), "NotifyFlush is sent to hfh.flushCoordinator when it is set")
+			}
 		}
+		// every test of the coordinator is followed by exactly one NotifyFlush on its non-nil side
+		eachInstr(nf, func(in ssa.Instruction) {
+			ifi, ok := in.(*ssa.If)
+			if !ok || fwdEvent(in) != "notifyFlush" {
+				return
+			}
+			b := ifi.Cond.(*ssa.BinOp)
+			side := ifi.Block().Succs[0]
+			if b.Op == token.EQL {
+				side = ifi.Block().Succs[1]
+			}
+			cnt := 0
+			for _, in2 := range side.Instrs {
+				if cl, ok := in2.(ssa.CallInstruction); ok && cl.Common().IsInvoke() && cl.Common().Method.Name() == "NotifyFlush" {
+					cnt++
+				}
+			}
+			r.Check("notifyFlush:one-notification", cnt == 1, ifi.Pos(), fmt.Sprintf("%d NotifyFlush calls on the branch where the coordinator is set", cnt))
+		})
 	}
-	r.Check("notifyFlush:one-notification", n == 1 && countOnPaths(nf, func(in ssa.Instruction) bool {
-		cl, ok := in.(ssa.CallInstruction)
-		return ok && cl.Common().IsInvoke() && cl.Common().Method.Name() == "NotifyFlush"
-	})&4 == 0, nf.Pos(), "at most one NotifyFlush per notifyFlush call")
+	r.Check("notifyFlush:sites", n >= 1, merging.Pos(), fmt.Sprintf("%d NotifyFlush call sites", n))
 }
 
 func c15(c *Ctx) {
@@ -250,14 +303,23 @@ func c15(c *Ctx) {
 			return
 		}
 		c.SawFunc(FuncName(run))
-		// wrappers
+		// wrappers (where they exist; the operations may also be written in place)
 		for _, p := range []struct{ fn, field, op string }{
 			{"acquireSem", "metricsSem", "recv"}, {"releaseSem", "metricsSem", "send"},
 			{"acquireMergingSem", "metricsMergingSem", "recv"}, {"releaseMergingSem", "metricsMergingSem", "send"},
 		} {
 			fn := w.Func("pkg/statsd", "(*HttpForwarderHandlerV2)."+p.fn)
 			if fn == nil {
-				r.Unresolved(p.fn)
+				// no wrapper: the operation must occur in place somewhere in Run
+				found := false
+				for _, g := range WithAnon(run) {
+					eachInstr(g, func(in ssa.Instruction) {
+						if fwdEvent(in) == p.fn {
+							found = true
+						}
+					})
+				}
+				r.Check("wrapper:"+p.fn, found, run.Pos(), fmt.Sprintf("%s: a %s on %s occurs in Run (no wrapper function)", p.fn, p.op, p.field))
 				continue
 			}
 			s, rc := chanFieldOps(fn, p.field)
@@ -283,13 +345,13 @@ func c15(c *Ctx) {
 				r.Check("constructor:prefilled:"+f, okFill, nf.Pos(), f+" is filled with tokens at construction")
 			}
 		}
-		callsNamed := func(fn *ssa.Function, name string) []ssa.CallInstruction {
-			var out []ssa.CallInstruction
-			for _, cl := range callsIn(fn) {
-				if cal := staticCallee(cl); cal != nil && cal.Name() == name {
-					out = append(out, cl)
+		callsNamed := func(fn *ssa.Function, name string) []ssa.Instruction {
+			var out []ssa.Instruction
+			eachInstr(fn, func(in ssa.Instruction) {
+				if fwdEvent(in) == name {
+					out = append(out, in)
 				}
-			}
+			})
 			return out
 		}
 		// merging: acquired in the consumer loop right before `go merging`; released exactly once in merging
@@ -316,10 +378,7 @@ func c15(c *Ctx) {
 			}
 		})
 		r.Check("merging:acquired-before-go", okAcq, consumer.Pos(), "acquireMergingSem precedes `go` of the merging goroutine in the same iteration")
-		m := countOnPaths(merging, func(in ssa.Instruction) bool {
-			cl, ok := in.(ssa.CallInstruction)
-			return ok && staticCallee(cl) != nil && staticCallee(cl).Name() == "releaseMergingSem"
-		})
+		m := countOnPaths(merging, func(in ssa.Instruction) bool { return fwdEvent(in) == "releaseMergingSem" })
 		r.Check("merging:released-exactly-once", m == 2, merging.Pos(), "releaseMergingSem executions over all paths = "+maskString(m))
 		// posting: acquireSem before go posting; releaseSem exactly once in posting
 		okAcq2 := false
@@ -333,10 +392,7 @@ func c15(c *Ctx) {
 			}
 		})
 		r.Check("posting:acquired-before-go", okAcq2, merging.Pos(), "acquireSem precedes `go` of the posting goroutine")
-		m2 := countOnPaths(posting, func(in ssa.Instruction) bool {
-			cl, ok := in.(ssa.CallInstruction)
-			return ok && staticCallee(cl) != nil && staticCallee(cl).Name() == "releaseSem"
-		})
+		m2 := countOnPaths(posting, func(in ssa.Instruction) bool { return fwdEvent(in) == "releaseSem" })
 		r.Check("posting:released-exactly-once", m2 == 2, posting.Pos(), "releaseSem executions over all paths = "+maskString(m2))
 		// no acquire without a goroutine on the empty-map path
 		for _, a := range callsNamed(merging, "acquireSem") {
